@@ -427,3 +427,6 @@ def run(chk, tier, only_rule=None):
     r17_9(chk, tier)
     r17_3(chk, facts)
     r17_4(chk, facts)
+    # the decoders read keys and strings as views of the current event
+    from . import c03
+    c03.r03_9(chk, tier)
